@@ -20,12 +20,13 @@ package vm
 //@ func (*EVM).TransferAssetTx
 //@   props C12
 //@   requires evm != nil && caller != nil
-//@   opt stop-at=run#0
+//@   opt stop-at=NewContract#0
+//@   opt prune-depth=40
 //@   let s = evm.am.GetAccount(caller.GetAddress()); r = evm.am.GetAccount(addr)
-//@   assert @call run#0: val(amount) >= 0
-//@   assert @call run#0: types.equityOf(s, assetId) >= 0
-//@   assert @call run#0: !destroyAsset && s != r ==> types.equityOf(s, assetId) == old(types.equityOf(s, assetId)) - val(amount)
-//@   assert @call run#0: !destroyAsset && s != r && old(types.hasEquity(r, assetId)) ==> types.equityOf(r, assetId) == old(types.equityOf(r, assetId)) + val(amount)
-//@   assert @call run#0: !destroyAsset && s != r && !old(types.hasEquity(r, assetId)) ==> types.equityOf(r, assetId) == val(amount)
-//@   assert @call run#0: !destroyAsset && s == r ==> types.equityOf(s, assetId) == old(types.equityOf(s, assetId))
-//@   assert @call run#0: destroyAsset && asset.IsDivisible ==> types.supplyOf(issuerAcc, senderEquity.AssetCode) == old(types.supplyOf(issuerAcc, senderEquity.AssetCode)) - val(amount) && types.equityOf(s, assetId) == old(types.equityOf(s, assetId)) - val(amount)
+//@   assert @call NewContract#0: val(amount) >= 0
+//@   assert @call NewContract#0: types.equityOf(s, assetId) >= 0
+//@   assert @call NewContract#0: !destroyAsset && s != r ==> types.equityOf(s, assetId) == old(types.equityOf(s, assetId)) - val(amount)
+//@   assert @call NewContract#0: !destroyAsset && s != r && old(types.hasEquity(r, assetId)) ==> types.equityOf(r, assetId) == old(types.equityOf(r, assetId)) + val(amount)
+//@   assert @call NewContract#0: !destroyAsset && s != r && !old(types.hasEquity(r, assetId)) ==> types.equityOf(r, assetId) == val(amount)
+//@   assert @call NewContract#0: !destroyAsset && s == r ==> types.equityOf(s, assetId) == old(types.equityOf(s, assetId))
+//@   assert @call NewContract#0: destroyAsset && asset.IsDivisible ==> types.supplyOf(issuerAcc, senderEquity.AssetCode) == old(types.supplyOf(issuerAcc, senderEquity.AssetCode)) - val(amount) && types.equityOf(s, assetId) == old(types.equityOf(s, assetId)) - val(amount)
